@@ -84,7 +84,7 @@ creation and removal below TMPDIR. -/
 def touchesMaildir (env : PEnv) (w : World) : Call → Bool
   | .openExcl d _ => !(((w.dirPath d).getD []).take env.tmpdir.length == env.tmpdir)
   | .unlinkat d _ => !(((w.dirPath d).getD []).take env.tmpdir.length == env.tmpdir)
-  | .renameat .. | .utimensat .. | .fprintf .. | .mkostemp .. | .fork | .unlink .. => true
+  | .renameat .. | .utimensat .. | .fprintf .. | .mkostemp .. | .fork .. | .unlink .. => true
   | _ => false
 
 /-- C05 (-d), maildir mode: a dry run issues no mutating call, whatever the configuration, the messages and the
@@ -93,7 +93,7 @@ under `-d` as they are otherwise, `expr_eval_command` forks; no action is execut
 theorem dryrun_no_mutation (env : PEnv) (orc : EvalOracles) (ok : Bool) (conf : List ConfBlock) (files : Files) (input : Bytes)
     (w : World) (plan : Plan) (hd : env.dryrun = true) (hm : env.stdinMode = false) :
     ∀ c ∈ callsOf plan (mainP env orc ok conf files input) w,
-      c.mutating = false ∧ (c = .fork → confHasCommand conf = true) :=
+      c.mutating = false ∧ (c.isFork = true → confHasCommand conf = true) :=
   World.quiet_callsOf _ plan _ w (World.quiet_mainP env orc ok conf files input hd hm)
 
 /-- C04: the exit status is computed from the error and reject flags only: 0/1 in maildir mode;
